@@ -1120,6 +1120,10 @@ def remove_duplicate_functions(source: str, preserve: Collection[str]) -> str:
     mentions = collections.defaultdict(list)
     for node, name in _iter_identifier_mentions(root):
         mentions[name].append(node)
+    # _fix_variable_names() does not rename anything to these
+    unavailable_names = (
+        tracing.get_imported_names(root) | constants.BUILTIN_FUNCTIONS | constants.PYTHON_KEYWORDS
+    )
 
     for funcdefs in function_defs.values():
         if len(funcdefs) == 1:
@@ -1134,7 +1138,7 @@ def remove_duplicate_functions(source: str, preserve: Collection[str]) -> str:
 
         for node in funcdefs - preserved_nodes:
             # The names must only ever mean these functions: all their uses are renamed.
-            if all(
+            if replacement.name not in unavailable_names and all(
                 mention in funcdefs
                 or (isinstance(mention, ast.Name) and isinstance(mention.ctx, ast.Load))
                 for name in (node.name, replacement.name)
